@@ -218,23 +218,62 @@ def indexed_slot(a, p):
     return up[0], up[1], i
 
 
-def cursor_slot(p):
-    """A pointer `owner.storage.as_ptr().add(owner.cursor)` where `owner` is what closure upvar k points to: (k, storage field, cursor field).
-    The slot is the element the owner's own cursor designates at that moment. None otherwise."""
+def cursor_slot_ex(p):
+    """A pointer `owner.storage.as_ptr().add(owner.cursor + d)` where `owner` is what closure upvar k points to and `owner.cursor` is the
+    cursor's value when the step starts: (k, storage field, cursor field, d). None otherwise."""
     if not (p[0] == "P" and isinstance(p[1], tuple) and len(p[1]) == 3 and p[1][0] == "field" and len(p[1][2]) == 1):
         return None
     owner = p[1][1]
     k = upvar_of(owner)
-    if k is None or len(p[2].t) != 1:
+    if k is None or not (1 <= len(p[2].t) <= 2):
         return None
-    (mono, coeff), = p[2].t.items()
-    if coeff != 1:
+    main = None
+    d = 0
+    size = None
+    for mono, coeff in p[2].t.items():
+        cur = [x for x in mono if isinstance(x, tuple) and x and x[0] == "cell" and isinstance(x[1], tuple) and len(x[1]) == 2 and x[1][0] == owner and len(x[1][1]) == 1]
+        sizes = [x for x in mono if x not in cur]
+        if len(sizes) != 1 or not (isinstance(sizes[0], tuple) and sizes[0] and sizes[0][0] == "S"):
+            return None
+        if size is not None and sizes[0] != size:
+            return None
+        size = sizes[0]
+        if len(cur) == 1 and coeff == 1 and main is None:
+            main = cur[0]
+        elif not cur:
+            d = coeff
+        else:
+            return None
+    if main is None:
         return None
-    cur = [x for x in mono if isinstance(x, tuple) and x and x[0] == "cell" and isinstance(x[1], tuple) and len(x[1]) == 2 and x[1][0] == owner and len(x[1][1]) == 1]
-    sizes = [x for x in mono if x not in cur]
-    if len(cur) != 1 or len(sizes) != 1 or not (isinstance(sizes[0], tuple) and sizes[0] and sizes[0][0] == "S"):
+    return k, p[1][2][0], main[1][1][0], d
+
+
+def cursor_slot(p):
+    """A pointer `owner.storage.as_ptr().add(owner.cursor)` where `owner` is what closure upvar k points to: (k, storage field, cursor field).
+    The slot is the element the owner's own cursor designates when the step starts. None otherwise."""
+    r = cursor_slot_ex(p)
+    if r is None or r[3] != 0:
         return None
-    return k, p[1][2][0], cur[0][1][1][0]
+    return r[:3]
+
+
+def cursor_offset_problems(offsets, deltas):
+    """offsets: [(position id, d)] - cursor-addressed slots `storage[cursor_at_step_start + d]`; deltas: position id -> set of per-step moves.
+    The slot a step moves must be the one its own advance takes out of (or into) the owner's claimed range: storage[cursor] for a cursor that
+    the step raises by one, storage[cursor - 1] for one it lowers by one. (Raise first and read `storage[cursor]` afterwards, and the element
+    read is one the owner still claims while the one it gave up is never touched.)"""
+    out = []
+    for pid, d in offsets:
+        mv = deltas.get(pid) or set()
+        want = 0 if mv == {1} else (-1 if mv == {-1} else None)
+        if want is None:
+            if d != 0:
+                out.append("a slot addressed through an owner's cursor lies %+d element(s) from where the cursor stood when the step began, and that cursor is not moved by exactly one element per step" % d)
+        elif d != want:
+            out.append("the slot moved is storage[cursor %+d] (cursor = its value when the step begins) but the step's own advance (%+d) gives up / takes in storage[cursor %+d]: "
+                       "the element moved stays claimed by the owner (double drop on unwind, one element never moved)" % (d, next(iter(mv)), want))
+    return out
 
 
 def closure_events(a, cl, region=None):
@@ -248,6 +287,7 @@ def closure_events(a, cl, region=None):
     a.__dict__["indexed_slots"] = indexed
     cursors = []
     a.__dict__["cursor_slots"] = cursors
+    a.__dict__["cursor_offsets"] = []
     for c in a.calls:
         order = 10 ** 6
         kind = None
@@ -255,11 +295,12 @@ def closure_events(a, cl, region=None):
             kind, data = "read", repr(c.args[0][1])
         elif c.fn in ("core::ptr::write", "core::mem::MaybeUninit::<T>::write") and c.args[0][0] == "P" and param_derived(c.args[0][1]):
             kind, data = "write", repr(c.args[0][1])
-        elif c.fn in ("core::ptr::read", "core::ptr::read_unaligned", "core::ptr::write", "core::mem::MaybeUninit::<T>::write") and c.args[0][0] == "P" and cursor_slot(c.args[0]) is not None:
+        elif c.fn in ("core::ptr::read", "core::ptr::read_unaligned", "core::ptr::write", "core::mem::MaybeUninit::<T>::write") and c.args[0][0] == "P" and cursor_slot_ex(c.args[0]) is not None:
             # cursor-addressed slot: the element the owner's own cursor designates (`take_next()`-style access through a `&mut owner` upvar)
-            k_, farr, fpos = cursor_slot(c.args[0])
+            k_, farr, fpos, d_ = cursor_slot_ex(c.args[0])
             kind, data = ("read" if "read" in c.fn else "write"), repr(("cur", k_, farr, fpos))
             cursors.append((k_, farr, fpos))
+            a.__dict__.setdefault("cursor_offsets", []).append((("fld", k_, fpos), d_))
         elif c.fn in ("core::ptr::read", "core::ptr::read_unaligned", "core::ptr::write") and c.args[0][0] == "P" and indexed_slot(a, c.args[0]) is not None:
             # index-addressed slot: element i of the storage an upvar points to, i being the closure's index parameter
             k_, depth, ix = indexed_slot(a, c.args[0])
@@ -407,6 +448,10 @@ def check_closure_protocol(a, cl, region=None):
     info["normal_problems"] = normal
     if info["bad_inc"]:
         normal.append("a position is not advanced by exactly one element")
+    offs = list(getattr(a, "cursor_offsets", [])) if region is None else list(getattr(region, "cursor_offsets", []))
+    for msg in cursor_offset_problems(offs, info["deltas"]):
+        normal.append(msg)
+        problems.append(msg)
     if reads and not writes:
         role = "consumer" if poss else "untracked-consumer"
         ns, np_ = len(slots), len(poss)
